@@ -63,6 +63,9 @@ type impFn struct {
 	// the function has no side effect and never panics (an obligation of the OK file: <coqName>_safe), so a call
 	// may be evaluated early, out of the right operand of && and ||
 	safe bool
+	// slice parameters the function writes through: their final contents are returned next to the value
+	outVars []string
+	outTy   string // Coq type of the packed result when outVars is set
 }
 
 type impPkg struct {
@@ -230,7 +233,21 @@ func (t *impT) expr(e ast.Expr) string {
 			b := t.expr(x.Y)
 			t.safeOnly--
 			if len(t.pre) != n && t.unsafeHoist {
-				return t.fail(e, "partial operation under a short-circuit operator")
+				// the right operand contains an operation that may panic: it is evaluated only when the left operand
+				// does not decide -- (a && b) becomes a conditional whose branch carries b's hoisted operations
+				if t.safeOnly > 0 {
+					return t.fail(e, "nested partial operation under short-circuit operators")
+				}
+				t.unsafeHoist = false
+				inner := append([]bindT{}, t.pre[n:]...)
+				t.pre = t.pre[:n]
+				v := t.newVar("b")
+				if x.Op == token.LAND {
+					t.pre = append(t.pre, bindT{v, "(if " + a + "\n  then " + wrapPre(inner, "Ok "+b) + "\n  else Ok false)"})
+				} else {
+					t.pre = append(t.pre, bindT{v, "(if " + a + "\n  then Ok true\n  else " + wrapPre(inner, "Ok "+b) + ")"})
+				}
+				return v
 			}
 			if x.Op == token.LAND {
 				return "(" + a + " && " + b + ")"
@@ -669,6 +686,16 @@ func (t *impT) retText(results []ast.Expr, k kont) string {
 
 // retPack pairs the returned value with the receiver when the function may write it.
 func (t *impT) retPack(val string) string {
+	if len(t.fn.outVars) > 0 {
+		outs := strings.Join(t.fn.outVars, ", ")
+		if t.fn.retTy == "" {
+			if len(t.fn.outVars) == 1 {
+				return outs
+			}
+			return "(" + outs + ")"
+		}
+		return "(" + val + ", " + outs + ")"
+	}
 	if t.fn.mut {
 		if t.fn.retTy == "" {
 			return t.recvN
@@ -947,6 +974,12 @@ func (t *impT) forStmt(f *ast.ForStmt, r *ast.RangeStmt, rest func() string, k k
 	for v := range loopVars {
 		m[v] = true
 	}
+	if rangeVal != "" && m[rangeOver] && rangeVal != rangeOver {
+		return t.fail(r, "range with a value variable over a slice that the loop writes")
+	}
+	if rangeVal != "" && rangeVal == rangeOver {
+		delete(m, rangeOver) // the element variable shadows the slice inside the body
+	}
 	names := sortedKeys(m)
 	st := tuple(names)
 	pat := tuplePat(names)
@@ -1063,7 +1096,9 @@ func translateImp(pkg *impPkg, parse func(rel string) *ast.File) (string, error)
 		if sp.recvRec != "" {
 			recvTy = sp.recvRec
 		}
-		if sp.mut {
+		if len(sp.outVars) > 0 {
+			ret = "result (" + sp.outTy + ")"
+		} else if sp.mut {
 			if sp.retTy == "" {
 				ret = "result (" + recvTy + ")"
 			} else {
